@@ -130,7 +130,7 @@ pub fn run_c15(env: &mut Env) -> Outcome {
 // ------------------------------------------------------------------------------------------------ C16
 
 fn gen_msg(ctx: &mut Ctx) -> Vec<u8> {
-    let n = match ctx.choose("msg_len_c", 5) { 0 => 0, 1 => 1, 2 => ctx.choose("msg_len_s", 40) as usize, 3 => 2048, _ => ctx.choose("msg_len", 2049) as usize };
+    let n = match ctx.choose("msg_len_c", 24) { 0..=4 => 0, 5..=9 => 1, 10..=14 => ctx.choose("msg_len_s", 40) as usize, 15..=18 => 2048, 19..=22 => ctx.choose("msg_len", 2049) as usize, _ => *ctx.pick("msg_len_big", &[4095usize, 4096, 16383, 16384, 65535, 65536, 70000]) };
     let a = ctx.choose("msg_fill", 256) as u8;
     (0..n).map(|i| a.wrapping_add(i as u8).rotate_left(3)).collect()
 }
@@ -166,7 +166,7 @@ pub fn run_c16(env: &mut Env) -> Outcome {
         ref_server = SealCtx::from_keys(&k2, &k1, a2, a1);
     }
     let _ = &mut ref_client;
-    let n = 1 + ctxrc.borrow_mut().choose("n_messages", 30) as usize;
+    let n = { let mut ctx = ctxrc.borrow_mut(); if ctx.chance("long_history", 1, 40) { 250 + ctx.choose("n_messages_long", 60) as usize } else { 1 + ctx.choose("n_messages", 30) as usize } };
     let fault_at = if ctxrc.borrow_mut().chance("inject_fault", 3, 4) { Some(ctxrc.borrow_mut().choose("fault_at", n as u64) as usize) } else { None };
     let mut earlier: Vec<Vec<u8>> = Vec::new();
     for k in 0..n {
